@@ -867,6 +867,19 @@ fn traversal_size(c: &Case) -> Option<u64> {
     crate::case::with_metx(&c.era, &bytes, |t| t.size() as u64).ok()
 }
 
+pub fn min_fee_params_pub(c: &Case) -> (u64, u64) {
+    min_fee_params(c)
+}
+pub fn collateral_pct_pub(c: &Case) -> u64 {
+    use pallas_validate::utils::MultiEraProtocolParameters as P;
+    match c.prot_params() {
+        P::Alonzo(p) => p.collateral_percentage as u64,
+        P::Babbage(p) => p.collateral_percentage as u64,
+        P::Conway(p) => p.collateral_percentage as u64,
+        _ => 0,
+    }
+}
+
 fn min_fee_params(c: &Case) -> (u64, u64) {
     use pallas_validate::utils::MultiEraProtocolParameters as P;
     match c.prot_params() {
